@@ -119,13 +119,16 @@ def tickAll (o : Oracle) (st : State) : State :=
 def rewrite (st : State) (path : Str) (content : Option Str) : State :=
   { st with files := fun p => if p = path then content else st.files p }
 
+/-- the certificates of a CA content: a PEM bundle holds several, here named `A+B` (every block of it is trusted) -/
+def certsOf (content : Str) : List Str := Str.splitOn 43 content
+
 /-- does a client built from this load result accept a server whose certificate chains to `serverCA`
     (`none`: a certificate no configured CA and no system root vouches for)? -/
 def accepts (t : LoadResult) (serverCA : Option Str) : Bool :=
   match t with
   | .noConfig => false
   | .error => false
-  | .cfg t => t.insecure || (match t.extra, serverCA with | some e, some c => e == c | _, _ => false)
+  | .cfg t => t.insecure || (match t.extra, serverCA with | some e, some c => (certsOf e).contains c | _, _ => false)
 
 def init : State := { pool := [], watchers := [], files := fun _ => none }
 
